@@ -123,7 +123,10 @@ def run(facts, R):
     # every producer kind's body-writer closure: an Err from the source or the sink can never lead to Ok(()) -
     # otherwise produce() would send End over a truncated stream instead of Fail
     from rules.C05 import result_switches, mentions
-    writers = [b for b in facts.bodies.values() if b.kind == "closure" and b.path.startswith("<server::Router as value_stream::RouterValueStreamExt>::")
+    # (every closure of the module with a body writer's signature - `|w: &mut dyn Write| -> io::Result<()>` - is one, wherever it is built:
+    # inside the Router extension methods or in a helper such as `block_body`)
+    writers = [b for b in facts.bodies.values() if b.kind == "closure" and b.path.startswith(("<server::Router as value_stream::RouterValueStreamExt>::", "value_stream::"))
+               and "::tests::" not in b.path
                and b.local_ty(0).startswith("std::result::Result<(), std::io::Error>") and any("dyn std::io::Write" in b.local_ty(a) for a in range(1, b.argc + 1))]
     R.floor("producer-errors-surface", len(writers), 4, "producer body-writer closures")
     for wb in writers + ([facts.body(pipe)] if pipe else []) + ([pb] if inline_pipe else []):
@@ -156,6 +159,22 @@ def run(facts, R):
                 R.check(not bad, "producer-errors-surface", wb.path, "Err of %s never becomes Ok(())" % nm,
                         "after `%s` fails the producer closure can still return Ok(()): the stream would end with an end marker over truncated bytes" % t["callee"]["path"], t.get("span"),
                         "Err edge cannot reach an Ok exit")
+
+    # ... and a source that hands its data out as items (`for block in blocks`, each an io::Result): an Err item must not lead to Ok(()) either
+    for wb in writers:
+        wsym = Sym(wb)
+        okpts = [(i, j) for i, j, st in blocks_assigning_variant(wb, "std::result::Result", "Ok")]
+        errb = []
+        for x in sorted(wb.live_blocks()):
+            for f in facts_at(wb, wsym, facts, x):
+                if str(f["val"]) == "Err" and not f.get("derived") and any(y[0] == "call" and y[1].rsplit("::", 1)[-1] == "next" for y in walk(f["expr"])) and f["expr"][0] in ("field", "variant"):
+                    errb.append((x, 0))
+        heads_ = [h for h in errb if not any((p_, 0) in errb for p_ in wb.preds().get(h[0], []))]
+        if heads_:
+            w = must_cross(wb, heads_, okpts, [], after_start=False)
+            R.check(w is None, "producer-errors-surface", wb.path, "an Err item of the source never becomes Ok(())",
+                    "after the source iterator yields an Err item the producer closure can still return Ok(()): the stream would end with an end marker over truncated bytes",
+                    wb.span, "Err item cannot reach an Ok exit", path=w)
 
     # ---------------- pull-decision-table ------------------------------------------------------------------
     sb = facts.body(VS + "Session::pull")
